@@ -169,10 +169,7 @@ func Distance(s, t []complex128, L float64) float64 {
 		return norm
 	case math.IsInf(L, 1):
 		for i, v := range s {
-			absDiff := cmplx.Abs(t[i] - v)
-			if absDiff > norm {
-				norm = absDiff
-			}
+			norm = math.Max(norm, cmplx.Abs(t[i]-v))
 		}
 		return norm
 	default:
